@@ -4,7 +4,7 @@ need the lock while somebody else holds it) has a step. -/
 namespace Ecal.Pool
 
 theorem length_eq_sum (pcs : List PC) :
-    pcs.length = cntOf pcs .head + cntOf pcs .chk + cntOf pcs .run + cntOf pcs .noTask + cntOf pcs .idleReg
+    pcs.length = cntOf pcs .head + cntOf pcs .chkT + cntOf pcs .chkF + cntOf pcs .run + cntOf pcs .noTask + cntOf pcs .idleReg
       + cntOf pcs .hasL + cntOf pcs .readQT + cntOf pcs .readQF + cntOf pcs .willWait + cntOf pcs .waiting
       + cntOf pcs .woken + cntOf pcs .unlocking + cntOf pcs .unreg + cntOf pcs .exiting + cntOf pcs .gone := by
   induction pcs with
@@ -84,7 +84,8 @@ theorem enabled_or_parked {s : State} (hr : Reachable repaired s) :
   simp only [abs, holders] at hx
   have hlen := length_eq_sum s.pcs
   by_cases h1 : 0 < cntOf s.pcs .head; · exact Or.inl (class_enabled _ h1 (by decide) (Or.inr (by decide)))
-  by_cases h2 : 0 < cntOf s.pcs .chk; · exact Or.inl (class_enabled _ h2 (by decide) (Or.inr (by decide)))
+  by_cases h2 : 0 < cntOf s.pcs .chkT; · exact Or.inl (class_enabled _ h2 (by decide) (Or.inr (by decide)))
+  by_cases h2' : 0 < cntOf s.pcs .chkF; · exact Or.inl (class_enabled _ h2' (by decide) (Or.inr (by decide)))
   by_cases h3 : 0 < cntOf s.pcs .run; · exact Or.inl (class_enabled _ h3 (by decide) (Or.inr (by decide)))
   by_cases h4 : 0 < cntOf s.pcs .noTask; · exact Or.inl (class_enabled _ h4 (by decide) (Or.inr (by decide)))
   by_cases h5 : 0 < cntOf s.pcs .hasL; · exact Or.inl (class_enabled _ h5 (by decide) (Or.inr (by decide)))
